@@ -426,6 +426,9 @@ fn generate_root_definition(
         }
     };
 
+    // Names are generated for use from inside this namespace
+    context.current_namespace = namespace;
+
     let defs = match decl {
         ir::RootDefinition::Struct(id) => {
             let sd = &module.struct_registry[id.0 as usize];
@@ -1591,7 +1594,13 @@ fn generate_expression(
         )),
         ir::Expression::ConstantVariable(id) => {
             let def = &context.module.cbuffer_registry[id.0.0 as usize].members[id.1 as usize];
-            ast::Expression::Identifier(ast::ScopedIdentifier::trivial(&def.name))
+            let is_hidden = context
+                .name_map
+                .is_hidden_from_root(&def.name, context.current_namespace);
+            ast::Expression::Identifier(scoped_name_to_identifier(ScopedName(
+                Vec::from([def.name.node.clone()]),
+                is_hidden,
+            )))
         }
         ir::Expression::EnumValue(id) => ast::Expression::Identifier(scoped_name_to_identifier(
             context.get_enum_value_name_full(*id)?,
@@ -2451,8 +2460,12 @@ fn generate_constant_buffer(
 /// Construct an ast scoped identifier from a HLSL generator scoped name
 fn scoped_name_to_identifier(scoped_name: ScopedName) -> ast::ScopedIdentifier {
     ast::ScopedIdentifier {
-        // Technically should be absolute but that generates uglier paths in the common case
-        base: ast::ScopedIdentifierBase::Relative,
+        // Only anchor the path at the root when something nearer may have the same name
+        // Always being absolute generates uglier paths in the common case
+        base: match scoped_name.1 {
+            true => ast::ScopedIdentifierBase::Absolute,
+            false => ast::ScopedIdentifierBase::Relative,
+        },
         identifiers: scoped_name
             .0
             .into_iter()
@@ -2476,6 +2489,9 @@ struct GenerateContext<'m> {
     module: &'m ir::Module,
     name_map: NameMap,
 
+    /// Namespace of the definition that is being generated
+    current_namespace: Option<ir::NamespaceId>,
+
     pipeline_description: PipelineDescription,
 
     /// Entry point function for pixel shader in a mesh-pixel pipeline
@@ -2497,6 +2513,7 @@ impl<'m> GenerateContext<'m> {
         GenerateContext {
             module,
             name_map,
+            current_namespace: None,
             pipeline_description: PipelineDescription {
                 bind_groups: Vec::new(),
             },
@@ -2519,11 +2536,11 @@ impl<'m> GenerateContext<'m> {
     fn get_global_name_full(&self, id: ir::GlobalId) -> Result<ScopedName, GenerateError> {
         let def = &self.module.global_registry[id.0 as usize];
         if def.is_intrinsic {
-            Ok(ScopedName(Vec::from([def.name.node.clone()])))
+            Ok(ScopedName(Vec::from([def.name.node.clone()]), false))
         } else {
             Ok(self
                 .name_map
-                .get_name_qualified(NameSymbol::GlobalVariable(id)))
+                .get_name_qualified(NameSymbol::GlobalVariable(id), self.current_namespace))
         }
     }
 
@@ -2534,7 +2551,9 @@ impl<'m> GenerateContext<'m> {
 
     /// Get the full name of a function
     fn get_function_name_full(&self, id: ir::FunctionId) -> Result<ScopedName, GenerateError> {
-        Ok(self.name_map.get_name_qualified(NameSymbol::Function(id)))
+        Ok(self
+            .name_map
+            .get_name_qualified(NameSymbol::Function(id), self.current_namespace))
     }
 
     /// Get the name of a struct
@@ -2544,7 +2563,9 @@ impl<'m> GenerateContext<'m> {
 
     /// Get the full name of a struct
     fn get_struct_name_full(&self, id: ir::StructId) -> Result<ScopedName, GenerateError> {
-        Ok(self.name_map.get_name_qualified(NameSymbol::Struct(id)))
+        Ok(self
+            .name_map
+            .get_name_qualified(NameSymbol::Struct(id), self.current_namespace))
     }
 
     /// Get the name of an enum
@@ -2554,7 +2575,9 @@ impl<'m> GenerateContext<'m> {
 
     /// Get the full name of an enum
     fn get_enum_name_full(&self, id: ir::EnumId) -> Result<ScopedName, GenerateError> {
-        Ok(self.name_map.get_name_qualified(NameSymbol::Enum(id)))
+        Ok(self
+            .name_map
+            .get_name_qualified(NameSymbol::Enum(id), self.current_namespace))
     }
 
     /// Get the name of an enum value
